@@ -9,6 +9,9 @@ def build(tier):
     fixed = [k for k in kinds if k != "@other"]
     obs = steps.step_obligations("C02.a", fixed, tier, 2 if quick else 3, 2 if quick else 3, symargs=True)
     obs += steps.step_obligations("C02.a", ["@other"], tier, 0 if quick else 1, 0 if quick else 1, symargs=False)
+    # deep nesting / long argument lists at no path cost: concrete frames below the symbolic ones, concrete arguments among the symbolic ones
+    obs += steps.step_obligations("C02.a", ["function", "endfunction", "cmake_parse_arguments", "cpp_class", "cpp_end_class", "cpp_member", "cpp_attr", "set"], tier, 1, 1,
+                                  symargs=True, deepd=8 if quick else 24, deepc=8 if quick else 24, preargs=["p%d" % i for i in range(12 if quick else 40)])
     def nleaves(st):
         return sum(nleaves(x) if isinstance(x, list) else 1 for x in st)
     for st in ([["s", ["s", "s"], "s"], [["s"], "s"], ["s", ["s", ["s"]], ["s"], "s"]] if quick else
@@ -25,4 +28,8 @@ def build(tier):
     # C02.e / C02.c whole sequences from the initial state: cross-command state, walker event order, rendering order and kinds
     ks = ["function", "endfunction", "set", "cpp_class", "cpp_end_class", "cpp_member", "ct_add_test", "message", "cmake_parse_arguments", "macro", "endmacro", "cpp_attr", "option", "add_test"]
     obs += seqs.seq_obligations("C02.e", ks[:8] if quick else ks, 3 if quick else 4, 1 if quick else 2, timeout=400 if quick else 2400)
+    # long files: 40 (thorough: 120) concrete documented commands of mixed kinds, then symbolic ones
+    mix = [('set', True), ('option', True), ('message', True), ('add_test', True), ('function', True), ('endfunction', False)]
+    pre = [mix[i % len(mix)] for i in range(42 if quick else 120)]
+    obs += seqs.seq_obligations('C02.e', ['function', 'endfunction', 'set', 'option', 'ct_add_test', 'message'], 2, 1, timeout=400 if quick else 2400, pre=pre)
     return dict(obligations=obs, explanation="x", assumptions=[])
